@@ -231,26 +231,27 @@ def scalar (p : PState) (v : JV) : Option PState := do
   let p1 ← put p v
   valueEnd p1
 
+/-- the "starting zero" check of state INT on the token `b` (`none` = index past the terminator) -/
+def leadingZeroBad (b : Bytes) : Option Bool := do
+  let b0 ← cAt b 0
+  if b0 = 45 then do
+    let b1 ← cAt b 1
+    if b1 = 48 then do
+      let b2 ← cAt b 2
+      pure (decide (b2 ≠ 0))
+    else pure false
+  else if b0 = 48 then do
+    let b1 ← cAt b 1
+    pure (decide (b1 ≠ 0))
+  else pure false
+
 /-- end of a number in state INT (the "starting zero" check, the 9-character int/double split) -/
 def intEnd (p : PState) : Res :=
   let b := buf p
-  if b ≠ [45] then do
-    let b0 ← cAt b 0
-    let bad : Bool ←
-      if b0 = 45 then do
-        let b1 ← cAt b 1
-        if b1 = 48 then do
-          let b2 ← cAt b 2
-          pure (decide (b2 ≠ 0))
-        else pure false
-      else if b0 = 48 then do
-        let b1 ← cAt b 1
-        pure (decide (b1 ≠ 0))
-      else pure false
-    if bad then errRet p
-    else do
-      let p1 ← scalar p (if b.length > 9 then .num b else .int (myatoiz b))
-      some (.again, p1)
+  if b ≠ [45] then
+    (leadingZeroBad b).bind fun bad =>
+      if bad then errRet p
+      else (scalar p (if b.length > 9 then .num b else .int (myatoiz b))).bind fun p1 => some (.again, p1)
   else errRet p
 
 /-- end of a number with fraction or exponent: `new_number(atof(_buffer)); value_end(); s--;` -/
